@@ -17,7 +17,7 @@ RULE = ("for each freshly generated key pair (real files, no mocks): the .pub fi
 ASSUMPTIONS = ["adbd verifies with RSA_verify(NID_sha1, token, 20, sig, ...), i.e. PKCS#1 v1.5 over the token taken as a SHA-1 digest (AOSP adb/daemon/auth.cpp)",
                "the cryptography package is trusted for loading the PEM private key and as a second verifier"]
 SHARDS = {"quick": 4, "thorough": 16}
-TIME_BUDGET = {"quick": 60, "thorough": 600}
+TIME_BUDGET = {"quick": 300, "thorough": 1800}
 FLOORS = {"quick": {"signatures_verified": 60, "blobs_checked": 3, "distinct": 3, "crafted_keys": 1, "crafted_tokens": 2}, "thorough": {"signatures_verified": 2000, "blobs_checked": 40}}
 
 SHA1_PREFIX = bytes.fromhex("3021300906052b0e03021a05000414")
